@@ -25,6 +25,9 @@ type Scenario struct {
 	Name  string
 	Group string // scenarios with the same Group are reported together in the evidence (default: Name)
 	Bound int    // deviation bound
+	// FromMark: deviations are only placed after the harness body called the scheduler's
+	// Mark (verifMark() in harness code); the set-up before it runs in the default schedule.
+	FromMark bool
 	// Body runs as goroutine 0 under the scheduler; it returns the observation of
 	// this execution (any value; nil if the execution was cut off before returning).
 	Body func() any
@@ -140,7 +143,7 @@ func worker(scs []Scenario, shard, n int, stop func() bool) result {
 	for i := range scs {
 		sc := &scs[i]
 		var obs any
-		e := &sched.Explorer{Bound: sc.Bound, Shard: shard, NShards: n, Stop: stop}
+		e := &sched.Explorer{Bound: sc.Bound, Shard: shard, NShards: n, Stop: stop, FromMark: sc.FromMark}
 		if byScenario {
 			if i%n != shard {
 				continue
